@@ -6,7 +6,10 @@ TITLE = "Mailbox naming is canonical: mail to an address is fetchable by that ad
 LEVEL_TEXT = ("Coq theorems over every address string and each naming mode (non-empty name, fixed point, name of the address, "
               "letter-case and +extension insensitivity for every l/e/d when both variants are accepted -- the +ext variant of an accepted "
               "address need not itself be accepted at the 128/320 limits --, REST/web-UI/monitor interfaces compute the same name) about an "
-              "executable model of pkg/policy/address.go; the model is tied to the code by a sampled correspondence check. PARTIAL for "
+              "executable model of pkg/policy/address.go; receive side = read side as ONE theorem over the flows the translator reads from the "
+              "source (receive_read_agreement: RCPT handler -> NewRecipient -> Deliver against every REST / web-UI / monitor / POP3 entry, exact guard); "
+              "an independent reading of doc/config.md proved against the model and used as oracle (ordinary_address_name); "
+              "the model is tied to the code by a sampled correspondence check and by pinned call structure (addr_calls_pinned). PARTIAL for "
               "'every read interface': the POP3 clause is REFUTED (open finding K-C04-pop3-user): USER <address> reaches the mailbox iff the "
               "address is its own canonical name, which in local (default) and domain naming is never the case for any accepted address "
               "(pop3_user_by_address_never_local/_domain); logging in with the mailbox NAME works in every mode (pop3_user_by_name)")
@@ -24,14 +27,20 @@ RULE = ("addr: structured generator (atoms, quoted strings, quoted pairs, routes
         "(generated IPv4/IPv6 bodies: octet ranges, leading zeros, field counts, group lengths, ellipsis positions, embedded IPv4, zones, mutations). "
         "pop3 / live: RCPT+DATA on a real SMTP session (net.Pipe), then lookup by the address through Manager.MailboxForAddress, every REST v1 and web-UI "
         "handler on the real router (list, show, source, mark-seen, delete, purge) and a real POP3 session (USER <address>). "
+        "lower: strings.ToLower on ASCII-only strings (the go_tolower model). valid: ValidateDomainPart on arbitrary byte strings (multi-byte runes, invalid UTF-8). "
+        "addr additionally: every ordinary address (Model/AddrSpec.v) must be accepted under the documented name. "
         "distinct = distinct input line; non-trivial = accepted by NewRecipient in at least one mode (addr, pop3, live), "
         "both variants accepted in at least one mode (case, plus), literal accepted by ParseIP (ip).")
 TRUSTED = [
     "Model/IpLit.v is a hand transcription of netip.ParseAddr / parseIPv4Fields / parseIPv6 (acceptance only) of the Go standard library "
     "(go1.23); it is tied to net.ParseIP by differential testing only (ip stream: generated IPv4/IPv6 literals around every rule of the parser; "
     "plus every bracketed-literal body occurring in any other case), not by proof",
-    "strings.ToLower is ASCII lower-casing on ASCII-only strings (the hypothesis of theorem unicode_lower_irrelevant; Go's implementation has "
-    "an explicit ASCII fast path); non-ASCII addresses incl. U+212A, U+0130, U+017F, full-width letters are in the generator",
+    "strings.ToLower is ASCII lower-casing on ASCII-only strings and anything at all otherwise (Model/AddrU.v go_tolower; theorem "
+    "unicode_lower_irrelevant_go has no hypothesis; the 'lower' stream samples the ASCII half on the real strings.ToLower); ValidateDomainPart's "
+    "rune iteration is proved equal to the byte-wise model on every byte string (validate_runes_irrelevant, with Go's UTF-8 decoder of Base/Regex.v)",
+    "Gen/AddrFlows.v: the translator's reading of the RCPT case of the SMTP handler, NewRecipient's Mailbox field, Deliver's mailbox list, "
+    "MailboxForAddress, the URL-variable uses and the POP3 s.user assignments, and the call lists of pkg/policy/address.go (syntactic, go/ast); "
+    "model_calls in Proofs/AddrFlow.v is the hand-written reading of Model/Addr.v it is compared with",
     "the translator's reading of pkg/rest and pkg/webui: every Vars[\"name\"] expression is listed in Gen/AddrConsts.v with whether it is the "
     "argument of MailboxForAddress, and StoreManager.MailboxForAddress is recognised syntactically as `return s.AddrPolicy.ExtractMailbox(x)`",
 ]
